@@ -268,11 +268,12 @@ impl Gatekeeper {
     /// DISCUSS: When `refund` is `false` we don't give back the slots to the user for the deleted appointments.
     /// This is to discourage misbehavior (sending bad appointments, either non-decryptable or rejected by the network).
     pub(crate) fn delete_appointments(&self, appointments: Vec<UUID>, refund: bool) {
+        // Lock order: `registered_users` is always taken before `dbm` (same as when adding users and appointments).
+        let mut registered_users = refund.then(|| self.registered_users.lock().unwrap());
         let mut dbm = self.dbm.lock().unwrap();
 
-        let updated_users = if refund {
+        let updated_users = if let Some(registered_users) = registered_users.as_mut() {
             let mut updated_users = HashMap::new();
-            let mut registered_users = self.registered_users.lock().unwrap();
             // Give back the consumed slots to each user.
             for uuid in appointments.iter() {
                 let (user_id, blob_size) = dbm.get_appointment_user_and_length(*uuid).unwrap();
